@@ -412,6 +412,26 @@ fn fam_6(thorough: bool) -> Vec<Case> {
         c.flat.push(("after 10000 adds".into(), format!("after {} adds", last)));
         cases.push(c);
     }
+    // the same through Extend: iterators that announce their length (size_hint), fresh, after a clear, in chunks
+    for &k in &[1usize, 16, 1000] {
+        let base = live();
+        let mut noise = 0i64;
+        let mut r = ReservoirSampling::<u64, PlainRng>::new(k, PlainRng(0x9E3779B97F4A7C15));
+        let mut c = Case { name: format!("ReservoirSampling k={} fed through Extend", k), documented: (k * 8) as f64, points: vec![], flat: vec![] };
+        noise += c.name.capacity() as i64;
+        r.extend(0..5u64);
+        rec(&mut c, &mut noise, base, "after extend(0..5)".into());
+        r.extend(5..last as u64);
+        rec(&mut c, &mut noise, base, format!("after extend(5..{})", last));
+        r.clear();
+        rec(&mut c, &mut noise, base, "after clear".into());
+        r.extend(0..last as u64);
+        rec(&mut c, &mut noise, base, format!("after clear, extend(0..{})", last));
+        r.clear();
+        r.extend((0..last as u64).map(|x| x ^ 1));
+        rec(&mut c, &mut noise, base, format!("after clear, extend(mapped 0..{})", last));
+        cases.push(c);
+    }
     cases
 }
 
